@@ -18,6 +18,13 @@ class AORun:
   def chart(self):
     sp = self.cfg.get("selfposts", {})       # {"A": [["post_fifo","B"]], ...}
     eff = [[1, sg, lst] for sg, lst in sp.items()]
+    if self.cfg.get("toggle"):
+      # two sibling states, A toggles between them (a trace record per A), B and C are handled internally (hooks)
+      return {"n": 2, "par": [0, 0], "init": [0, 0], "sigs": ["A", "B", "C"],
+              "react": [[["tran", 2], ["hook", 0], ["hook", 0]], [["tran", 1], ["hook", 0], ["hook", 0]]],
+              "eff": eff + [[2, sg, lst] for sg, lst in sp.items()], "bad": [], "build": "dyn", "reg": [],
+              "xstyle": ["h", "h"], "estyle": ["h", "h"], "istyle": ["h", "h"], "spied": bool(self.cfg.get("spied", False)), "host": "ao",
+              "cap": self.cfg["cap"]}
     return {"n": 1, "par": [0], "init": [0], "sigs": ["A", "B", "C"],
             "react": [[["hook", 0], ["hook", 0], ["hook", 0]]], "eff": eff, "bad": [], "build": "dyn", "reg": [],
             "xstyle": ["h"], "estyle": ["h"], "istyle": ["h"], "spied": bool(self.cfg.get("spied", False)), "host": "ao",
@@ -71,8 +78,9 @@ class AORun:
         if cfg.get("live"):
           # live spy / live trace on: every line goes through the writer thread's queue while posters keep posting
           ao.live_spy, ao.live_trace = True, True
-          ao.register_live_spy_callback(lambda line: None)
-          ao.register_live_trace_callback(lambda line: None)
+          me.live_spy_lines, me.live_trc_lines = [], []
+          ao.register_live_spy_callback(lambda line: me.live_spy_lines.append(line))
+          ao.register_live_trace_callback(lambda line: me.live_trc_lines.append(line))
         ao.locking_deque.deque.vname = "dq"
         ao.locking_deque.locking_queue.vname = "tokens"
         me.snaps = {}
@@ -126,7 +134,16 @@ class AORun:
       last = self.snaps.get(seq, last)
       if obj in ("dq", "tokens"):
         ops.append([th, op, obj, list(args), r if r is not None else "", list(last[0]), last[1]])
-    return {"outcome": outcome, "dq": dq, "tokens": ao.locking_deque.locking_queue._size(), "dispatched": list(self.dispatched),
+    import re as _re
+    live = {"live": bool(self.cfg.get("live")), "toggle": bool(self.cfg.get("toggle")), "live_spy_calls": [], "live_trc": [], "calls": [], "disp_sigs": []}
+    if live["live"]:
+      # what the writer thread handed to the callbacks: the handler-call lines of the live spy (markers of posts made by other
+      # threads are not lines "produced by a step") and the live trace records; and, independently, the calls the handlers saw
+      live["live_spy_calls"] = [ln for ln in self.live_spy_lines if _re.match(r"^[A-Z_]+:s\d+(:HOOK)?$", ln)]
+      live["live_trc"] = [chartgen.parse_trace_line(ln) for ln in self.live_trc_lines]
+      live["calls"] = [[c[0], c[1], c[2]] for c in self.script.log if c[0] != "REFLECTION_SIGNAL"]
+      live["disp_sigs"] = [c[0] for c in self.script.log if c[0] in ("A", "B", "C")]
+    return {"outcome": outcome, "dq": dq, "tokens": ao.locking_deque.locking_queue._size(), "dispatched": list(self.dispatched), "liveout": live,
             "errors": sched.errors, "blocked": sched.blocked(), "steps": sched.steps, "ops": ops,
             "rtc_overlap": self.rtc_overlap, "stopped": bool(self.cfg.get("stop")), "schedule": [c[0] for c in sched.choices][-(sched.steps):],
             "posters_done": all(vt.state == "done" for vt in sched.threads if vt.name in self.cfg["progs"])}
@@ -233,7 +250,8 @@ def validate(results, cap):
     for tid, r in results:
       f.write(json.dumps({"tid": tid, "ops": r["ops"], "end": {
         "outcome": r["outcome"], "posters_done": r["posters_done"], "stopped": r["stopped"],
-        "dispatched": r["dispatched"], "rtc_overlap": r["rtc_overlap"]}}) + "\n")
+        "dispatched": r["dispatched"], "rtc_overlap": r["rtc_overlap"], "liveout": r.get("liveout", {"live": False, "toggle": False,
+        "live_spy_calls": [], "live_trc": [], "calls": [], "disp_sigs": []})}}) + "\n")
   t = tlc.run("AOTrace.tla", AO_CFG % cap, workers="auto", env={"TRACE_FILE": path}, timeout=1800)
   os.unlink(path)
   if t.violated:
